@@ -183,3 +183,32 @@ func c11R5(c *Ctx, rule string) {
 func c11R6(c *Ctx, rule string) {
 	unbufferedOutput(c, rule)
 }
+
+// everyArgumentEvaluated: a fault in any argument of a call stops the run, whatever the callee does
+// with its arguments.
+func everyArgumentEvaluated(c *Ctx, rule string) {
+	p := c.P
+	c.note("%s every-argument-evaluated: the call arm of evalExpr hands the node's whole argument list (ExprCall.Args itself, not a prefix or a selection of it) to evalExprList: arguments beyond the callee's parameters are evaluated too, so a fault in them is reported.", rule)
+	ee := p.LangFunc("(*Evaluator).evalExpr")
+	if ee == nil {
+		c.undecided(rule, "evalExpr", "", "anchor not found")
+		return
+	}
+	n := 0
+	for _, fn := range p.privateCluster(ee) {
+		for _, call := range callsIn(fn) {
+			if !staticCalleeIs(call, "(*lang.Evaluator).evalExprList") {
+				continue
+			}
+			r := p.Render(call.Common().Args[1])
+			if !strings.Contains(r, "ExprCall") {
+				continue
+			}
+			n++
+			c.check(strings.HasSuffix(r, ".(*lang.ExprCall)#0.Args") && !strings.Contains(r, "["), rule, "every-argument-evaluated", p.InstrPos(call), "evalExprList(exp.Args, …)", "the call arm evaluates "+abbrev(r, 120)+" instead of the whole argument list: the other arguments are never evaluated, so a fault in them (1/0, an unknown method) is silently ignored")
+		}
+	}
+	if n == 0 {
+		c.undecided(rule, "every-argument-evaluated", p.Pos(ee.Pos()), "no evalExprList call on the arguments of an ExprCall found")
+	}
+}
